@@ -228,6 +228,9 @@ func genC06(g *Gen, tier string) *Case {
 	if g.Chance(0.5) { // idempotent / commutative / later updates
 		ops = append(ops, TL(TNi(hlMerge), TNi(2), TNi(3)), TL(TNi(hlRegs), TNi(2)),
 			TL(TNi(hlMerge), TNi(3), TNi(2)), TL(TNi(hlRegs), TNi(3)))
+		if g.Chance(0.5) { // a sketch merged with itself stays what it is (and the call returns)
+			ops = append(ops, TL(TNi(hlMerge), TNi(2), TNi(2)), TL(TNi(hlRegs), TNi(2)))
+		}
 		x := []byte(fmt.Sprintf("late%d", g.Intn(1000)))
 		ops = append(ops, TL(TNi(hlUpdate), TNi(2), TBs(x)), TL(TNi(hlUpdate), TNi(0), TBs(x)),
 			TL(TNi(hlRegs), TNi(2)), TL(TNi(hlRegs), TNi(0)))
